@@ -561,3 +561,32 @@ def gen_history(rng, schema, n, seed_state=True, enrich=False, sweep=False):
     if enrich is True:
         h.enrich()
     return h
+
+
+# ------------------------------------------------------------------ directory shapes (C16 / C10: c16.probe)
+import itertools
+
+DIR_SHAPES = ["N0"] + ["".join(x) for x in itertools.product("avzg", "avzg", "aevzg")]
+SHAPE_WORD = {"a": "absent", "v": "valid", "z": "zero bytes", "g": "garbage", "e": "present, empty"}
+
+def shape_text(sh):
+    if sh == "N0":
+        return "no directory"
+    return "m.db %s, p.db %s, Database2/ %s" % (SHAPE_WORD[sh[0]], SHAPE_WORD[sh[1]],
+                                                 {"a": "absent", "e": "present and empty"}.get(sh[2], "with m.db " + SHAPE_WORD[sh[2]]))
+
+
+def library_present(sh):
+    """the library's own notion (engine_library_dir_utils.cpp): m.db or Database2/m.db is there"""
+    return sh != "N0" and (sh[0] != "a" or sh[2] in "vzg")
+
+
+def parse_probe(o):
+    if not o.startswith("ok before="):
+        return None
+    head, l0, l1 = o[3:].split(" | ", 2)
+    d = dict(t.split("=", 1) for t in head.split(" "))
+    d["l0"], d["l1"] = l0, l1
+    return d
+
+
